@@ -265,6 +265,42 @@ def _chord_cumsum(mod, f):
     return False, "unmodelled: displacement %s" % mod.code(d)[:80]
 
 
+def neighbour_rules(mod, rep):
+    """FineContour.getDistance interpolates between the closest fine point i1 and one of its
+    neighbours i1-1 / i1+1.  A neighbour may be ruled out only because it does not exist (index
+    below 0 or beyond the last point of the *array*) - the fine contour extends past startInd /
+    endInd exactly so that guard-cell points are interpolated, not extrapolated; where both exist
+    the choice is by the closest approach to the two adjacent segments."""
+    from ..stores import effects
+    g = mod.funcs.get("FineContour.getDistance")
+    if g is None:
+        raise AnalysisError("FineContour.getDistance not found")
+    stores = [e for e in effects(g.node, inline=False) if e.kind == "store" and isinstance(e.target, ast.Name) and e.target.id == "i2"]
+    length = (K("len(distance_from_points)"), K("len(self.positions)"), K("self.positions.shape[0]"), K("distance_from_points.shape[0]"), K("len(self.distance)"))
+    upper_ok = set()
+    for L in length:
+        upper_ok |= {K("i1 + 1 >= %s" % L), K("i1 >= %s - 1" % L), K("i1 + 1 == %s" % L), K("i1 == %s - 1" % L)}
+    lower_ok = {K("i1 - 1 < 0"), K("i1 < 1"), K("i1 == 0"), K("i1 <= 0")}
+    arms = {}
+    bad = []
+    for e in stores:
+        conds = [mod.code(c) for c in e.conds if not isinstance(c, str)]
+        v = mod.code(e.value)
+        arms.setdefault(v, []).append(conds)
+        for c in conds:
+            plain = c[3:] if c.startswith("not") else c
+            plain = plain.strip("()")
+            if ("endInd" in plain or "startInd" in plain):
+                bad.append("neighbour chosen by `%s`: the start/end marker is not where the fine contour ends" % c)
+    tests = {c[3:].strip("()") if c.startswith("not") else c for lst in arms.values() for conds in lst for c in conds}
+    has_upper = bool(tests & upper_ok)
+    has_lower = bool(tests & lower_ok)
+    geometric = any("closest_approach(" in t for t in tests)
+    ok = not bad and has_upper and has_lower and geometric and set(arms) <= {K("i1 - 1"), K("i1 + 1"), "1"}
+    rep.ob("R3", "getDistance: a neighbour of the closest fine point is ruled out only where the array ends; otherwise the nearer adjacent segment is taken", ok, g.site(),
+           ("definite: " + "; ".join(bad)) if bad else "tests: %s; values: %s" % (sorted(tests), sorted(arms)), key="dist/neighbour")
+
+
 def reverse_rules(mod, rep):
     """FineContour.reverse: point k becomes point n-1-k, so the marked interval [startInd, endInd]
     becomes [n-1-endInd, n-1-startInd] and the distance of new point k is total - old distance of
@@ -326,6 +362,7 @@ def r3(prog, rep):
             zero = n in (K("self.positions.shape[0]"), K("len(self.positions)"))
     rep.ob("R3", "distance[0] == 0 (array allocated as zeros, entries 1.. overwritten)", zero, f.site(), "", key="dist/zero")
     reverse_rules(mod, rep)
+    neighbour_rules(mod, rep)
     g = mod.funcs.get("FineContour.getDistance")
     if g is None:
         raise AnalysisError("FineContour.getDistance not found")
